@@ -333,36 +333,44 @@ def _first_crash(config, req, strs, env):
 
 
 def dirty_tree(ck, prefix, config, jobs):
-    """The library built by the project's build system in a tree that ALSO holds the git-ignored leftovers of an earlier in-tree build (a stale
-    src/xrayglob_inline.c whose every number differs, stale objects: build.meson_lib(dirty=True)) gives the same bits as the one built in
-    the clean tree: the tables follow data/*.dat, not whatever is lying around.  Returns the number of calls made."""
+    """The library built by the project's build system gives the same bits as the build of the clean copy when
+      (a) the tree ALSO holds the git-ignored leftovers of an earlier in-tree build (a stale src/xrayglob_inline.c whose every number differs,
+          stale objects) and the build runs with XRAYLIB_DIR pointing at a stale data directory and MALLOC_PERTURB_ set;
+      (b) the data files of the tree have CR LF line ends.
+    The tables follow data/*.dat of the tree, not whatever is lying around or set in the environment.  Returns the number of calls made."""
     from . import build as _b
     clean = Lib(config, 'meson', shuffle=False)
-    D = _b.meson_lib(config, dirty=True)
-    env = {'LD_LIBRARY_PATH': D['dir']}
-    p = subprocess.run(['ldd', clean.mon], env=dict(os.environ, **env), stdout=subprocess.PIPE, stderr=subprocess.STDOUT).stdout.decode()
-    if not any('libxrl' in l and D['dir'] in l for l in p.split('\n')):
-        raise Inconclusive('the executor does not load the library built in the dirty tree: ' + p[-300:])
-    dirty = Lib(config, 'meson', shuffle=False, env=env)
     n = 0
-    for j in jobs:
-        name = j[0]
-        req, strs = clean.build(name, *j[1:])
-        ref = clean.run(req, strs)
+    for dirty, what in ((True, 'a tree that holds a stale, git-ignored src/xrayglob_inline.c, built with XRAYLIB_DIR pointing at stale data and MALLOC_PERTURB_ set'),
+                        ('crlf', 'a tree whose data files have CR LF line ends')):
+        tag = 'leftover-files-or-build-environment' if dirty is True else 'line-ends-of-the-data-files'
         try:
-            r = dirty.run(req, strs)
-        except ExecCrash as ex:
-            ck.violation('%s:%s:build-in-a-tree-with-leftovers-dies' % (prefix, name), '%s kills the executor (rc %d) in the library meson builds in a tree holding stale generated files' % (name, ex.rc),
-                         dict(function=name, config=config))
+            D = _b.meson_lib(config, dirty=dirty)
+        except _b.BuildError as ex:
+            ck.violation('%s:build-fails:%s' % (prefix, tag), 'the project does not build in %s (it builds in the clean copy): %s' % (what, str(ex)[-300:]), dict(config=config))
             continue
-        n += 2 * len(req)
-        bad = np.nonzero(((r.v.view('u8') != ref.v.view('u8')) & ~(np.isnan(r.v) & np.isnan(ref.v))) | (r.status != ref.status))[0]
-        for k in bad[:2]:
-            q = req[k]
-            ck.violation('%s:%s:build-follows-leftover-files-in-the-tree' % (prefix, name),
-                         '%s returns %r (status %d) from the library meson builds in a tree that holds a stale, git-ignored src/xrayglob_inline.c, and %r (status %d) from the build of the clean tree: '
-                         'the tables do not come from data/*.dat' % (name, float(r.v[k]), int(r.status[k]), float(ref.v[k]), int(ref.status[k])),
-                         dict(function=name, ints=q['i'][:3].tolist(), doubles=q['d'][:4].tolist(), config=config, build='meson, dirty tree'))
+        env = {'LD_LIBRARY_PATH': D['dir']}
+        p = subprocess.run(['ldd', clean.mon], env=dict(os.environ, **env), stdout=subprocess.PIPE, stderr=subprocess.STDOUT).stdout.decode()
+        if not any('libxrl' in l and D['dir'] in l for l in p.split('\n')):
+            raise Inconclusive('the executor does not load the library built in the dirty tree: ' + p[-300:])
+        dirty_lib = Lib(config, 'meson', shuffle=False, env=env)
+        for j in jobs:
+            name = j[0]
+            req, strs = clean.build(name, *j[1:])
+            ref = clean.run(req, strs)
+            try:
+                r = dirty_lib.run(req, strs)
+            except ExecCrash as ex:
+                ck.violation('%s:%s:build-dies:%s' % (prefix, name, tag), '%s kills the executor (rc %d) in the library meson builds in %s' % (name, ex.rc, what), dict(function=name, config=config))
+                continue
+            n += 2 * len(req)
+            bad = np.nonzero(((r.v.view('u8') != ref.v.view('u8')) & ~(np.isnan(r.v) & np.isnan(ref.v))) | (r.status != ref.status))[0]
+            for k in bad[:2]:
+                q = req[k]
+                ck.violation('%s:%s:build-follows-%s' % (prefix, name, tag),
+                             '%s returns %r (status %d) from the library meson builds in %s, and %r (status %d) from the build of the clean tree: the tables do not come from data/*.dat alone' % (
+                                 name, float(r.v[k]), int(r.status[k]), what, float(ref.v[k]), int(ref.status[k])),
+                             dict(function=name, ints=q['i'][:3].tolist(), doubles=q['d'][:4].tolist(), config=config, build='meson, ' + what))
     return n
 
 
